@@ -13,6 +13,7 @@ func init() {
 				{Harness: "c17.encode", Mode: "plain", Shards: 16},
 				{Harness: "c17.decode", Mode: "plain", Shards: 16},
 				{Harness: "c17.utf8", Mode: "plain", Shards: 16},
+				{Harness: "c17.keys", Mode: "plain", Shards: 8},
 			}
 		},
 	})
